@@ -277,6 +277,10 @@ def run(case):
                 if np.all(np.isfinite(seg)) and max(seg) > max(ca, cb) + 1e-5 * max(1.0, abs(ca), abs(cb)):
                     raise Discard("the two backends sit in different local minima separated by a barrier (multi-modal surface: not well-posed)")
                 lim_tag = ",limits" if spec.get("limits") else ""
+                # bug model of KF-C06-2: scipy's own OptimizeResult says success=False (BFGS line search failed, "precision loss") and do_fit returned normally
+                opt_ = getattr(results["scipy"][2]._fitter.minimizer, "_opt_result", None)
+                if worse == "scipy" and opt_ is not None and not bool(getattr(opt_, "success", True)):
+                    lim_tag += ",scipy-reported-failure"
                 raise Violation(f"backends-disagree[{spec['type']}:{spec.get('dea', 'nonlinear')}:worse={worse}{lim_tag}]",
                                 f"{nm}: iminuit {pa[i]!r} (full cost {ca!r}), scipy {pb[i]!r} (full cost {cb!r}): {(pa[i] - pb[i]) / s:.3g} sigma apart; limits {spec.get('limits')}")
     if dyn:
@@ -293,6 +297,9 @@ KNOWN = {
     # *relative* function-reduction threshold ftol: the search stops ("RELATIVE REDUCTION OF F <= FACTR*EPSMCH") far from the constrained
     # minimum (several cost units) when a step along an active bound makes little progress.
     "KF-C06-1": lambda sub, case, v: bool(case["spec"].get("limits")) and (v.facet.startswith("not-a-local-minimum[scipy") or "worse=scipy,limits" in v.facet),
+    # scipy.optimize.minimize(BFGS) returns success=False / nit=0 ("precision loss": the first unit-Hessian step x - grad lands where the model overflows) and
+    # MinimizerScipyOptimize.minimize does not look at OptimizeResult.success: do_fit returns normally with the starting values as "optimum"
+    "KF-C06-2": lambda sub, case, v: not case["spec"].get("limits") and v.facet.startswith("backends-disagree") and v.facet.endswith("worse=scipy,scipy-reported-failure]"),
 }
 
 SUBS = [
